@@ -551,14 +551,16 @@ func checkC06(e *Engine, r *Report) {
 			if e.IsCallTo(in, fset(c.zoneRemove)) {
 				a := callArgs(in.(ssa.CallInstruction))
 				cnt++
-				r.Check("R6:release-local@zoneRemove", "data-flow release-is-local", "release removes the zone entry of its own request id only",
-					e.InstrPos(in), fn, len(a) == 3 && isOwnID(a[2]), "", true)
+				sp := e.skippedOnSuccess(fn, in)
+				r.Check("R6:release-local@zoneRemove", "data-flow release-is-local", "every successful release removes the zone entry of its own request id, and only that",
+					e.InstrPos(in), fn, len(a) == 3 && isOwnID(a[2]) && sp == nil, e.pathString(sp), true)
 			}
 			if isMapWriteOf(in, c.fRequests) {
 				cc := in.(ssa.CallInstruction).Common()
 				cnt++
-				r.Check("R6:release-local@delete(requests)", "data-flow release-is-local", "release deletes its own request id only",
-					e.InstrPos(in), fn, isOwnID(cc.Args[1]), "", true)
+				sp := e.skippedOnSuccess(fn, in)
+				r.Check("R6:release-local@delete(requests)", "data-flow release-is-local", "every successful release deletes its own request id, and only that",
+					e.InstrPos(in), fn, isOwnID(cc.Args[1]) && sp == nil, e.pathString(sp), true)
 			}
 			if c.e.CallReaches(in, fset(c.zoneAssign, c.zoneMove), 0) {
 				r.Check("R6:release-no-assign", "data-flow release-is-local", "release never (re)assigns or moves any request",
